@@ -857,6 +857,21 @@ func (g *gen) boundarySuite() {
 			g.emit(r.t+".Quo", "suite", m, m)
 		}
 	}
+	// the native-integer forms (AddRaw, SubRaw, MulRaw, QuoRaw, ModRaw; Dec.MulInt64 / QuoInt64) take an int64:
+	// both ends of its range and their neighbours as the second operand (negating or widening the
+	// smallest int64 natively wraps)
+	i64Min := new(big.Int).Neg(add(i64Max, one))
+	for _, b := range []*big.Int{i64Min, add(i64Min, one), i64Max, sub(i64Max, one), big.NewInt(-1), one} {
+		for _, a := range []*big.Int{new(big.Int), one, big.NewInt(-1), i64Max, i64Min, big.NewInt(7), sub(intMax, i64Max), neg(sub(intMax, i64Max))} {
+			for _, op := range []string{"Int.Add", "Int.Sub", "Int.Mul", "Int.Quo", "Int.Mod"} {
+				g.emit(op, "suite-int64", a, b)
+			}
+		}
+		for _, a := range []*big.Int{new(big.Int), ten18, neg(ten18), five17, mul(i64Max, ten18), big.NewInt(3)} {
+			g.emit("Dec.MulInt", "suite-int64", a, b)
+			g.emit("Dec.QuoInt", "suite-int64", a, b)
+		}
+	}
 	// Dec: products / quotients / conversions that land on a bound
 	for _, d := range []int64{-1, 0, 1} {
 		g.emit("Dec.Mul", "suite", decMax, add(ten18, big.NewInt(d)))
